@@ -20,6 +20,8 @@ ASSUMPTIONS = [
     'note.start_time is non-decreasing in quantized_start_step (monotone quantization)',
     'performance step-level decoding is read from the real _to_sequence with seconds_per_step = 1.0; the public '
     'to_sequence + re-quantisation (floats) is exercised by the oracle only',
+    'every case also re-runs the extraction on a re-used / after a scribbled-on object and checks that the argument '
+    'proto is byte-identical afterwards (state across calls)',
 ]
 USE_VM = False
 
@@ -63,38 +65,52 @@ def steps_per_bar(d):
     return n // den if n % den == 0 else None
 
 
-def gen_qseq(rng, absolute=False, max_notes=14, zero_vel=True, chords=False, overlap_ok=False):
+INSTR_IDS = [0, 1, 2, 3, 5, 9, 15]
+
+
+def gen_qseq(rng, absolute=False, max_notes=14, zero_vel=True, chords=False, overlap_ok=False, zero_len=True):
     """A quantized NoteSequence description (nsio desc): steps are set directly."""
     spq = 0 if absolute else rng.choice([1, 2, 3, 4, 4, 4, 6, 8, 12, 24])
     sps = rng.choice([10, 31, 100, 250]) if absolute else 0
     ts = rng.choice(TSIGS)
+    n4 = (spq or 4) * 4 * ts[0]
+    spb = n4 // ts[1] if n4 % ts[1] == 0 else 4
     ninstr = rng.randint(1, 3)
+    ids = rng.sample(INSTR_IDS, ninstr) if rng.random() < 0.6 else list(range(ninstr))
     horizon = rng.choice([8, 16, 32, 64, 120])
     pitches = rng.sample(range(18, 112), rng.randint(1, 6))
     if rng.random() < 0.15:
         pitches += [rng.choice([0, 1, 20, 21, 108, 109, 126, 127])]
-    progs = [rng.choice([0, 1, 33]) for _ in range(ninstr)]
+    progs = [rng.choice([0, 1, 33, 127]) for _ in range(ninstr)]
     inst_drum = [rng.random() < 0.25 for _ in range(ninstr)]
     notes = []
     pool = []
     nn = rng.randint(0, max_notes) if rng.random() < 0.9 else rng.randint(max_notes, 40)
+    last_end = 0
     for _ in range(nn):
         r = rng.random()
         if pool and r < 0.3:
             qs = rng.choice(pool)                        # coincident onset / abutting repeat
         elif pool and r < 0.4:
             qs = max(pool) + rng.choice([1, 2, 8, 16, 40, 70])   # gaps
+        elif pool and r < 0.5:
+            # silence of exactly / just under / just over k bars after the latest end or onset
+            qs = max(0, rng.choice([last_end, max(pool), max(pool) + 1]) +
+                     rng.choice([1, 1, 2, 4]) * spb + rng.choice([-1, 0, 0, 1]))
         else:
             qs = rng.randint(0, horizon)
         qe = qs + (rng.choice([1, 1, 2, 3, 4, 8]) if rng.random() < 0.85 else rng.randint(1, 40))
+        if zero_len and rng.random() < 0.01:
+            qe = qs                                       # not a quantizer output; correspondence only
+        last_end = max(last_end, qe)
         if rng.random() < 0.3:
             pool.append(qe)
         pool.append(qs)
-        instr = rng.randrange(ninstr)
-        drum = inst_drum[instr] if rng.random() < 0.9 else (not inst_drum[instr])
+        k = rng.randrange(ninstr)
+        drum = inst_drum[k] if rng.random() < 0.9 else (not inst_drum[k])
         vel = 0 if (zero_vel and rng.random() < 0.08) else rng.choice([1, 30, 64, 64, 100, 127, rng.randint(1, 127)])
-        prog = progs[instr] if rng.random() < 0.9 else rng.choice([0, 1, 33, 40])
-        notes.append([rng.choice(pitches), vel, 0, 0, instr, prog, int(drum), qs, qe, 0])
+        prog = progs[k] if rng.random() < 0.9 else rng.choice([0, 1, 33, 40])
+        notes.append([rng.choice(pitches), vel, 0, 0, ids[k], prog, int(drum), qs, qe, 0])
     if not (overlap_ok and rng.random() < 0.5):
         kept = []
         for n in notes:
@@ -129,7 +145,7 @@ def gen_qseq(rng, absolute=False, max_notes=14, zero_vel=True, chords=False, ove
     d['qsteps'] = tq
     d['spq'] = spq
     d['sps'] = sps
-    d['sub'] = [0, 0]
+    d['sub'] = [0, 0] if rng.random() < 0.9 else [K, 2 * K]       # a non-default subsequence_info is ignored
     d['tpq'] = 220
     d['meta'] = None
     return d
@@ -172,11 +188,14 @@ def _sss(rng, d):
     return rng.choice([0, 0, 0, 1, 2, 3]) * spb
 
 
+def _instr_choices(d):
+    return sorted(set(n[4] for n in d['notes'])) or [0]
+
+
 def gen_case(rng, op):
     if op == 'melody':
         d = _seq(rng)
-        instrs = sorted(set(n[4] for n in d['notes'])) or [0]
-        p = {'search_start_step': _sss(rng, d), 'instrument': rng.choice(instrs + [0]),
+        p = {'search_start_step': _sss(rng, d), 'instrument': rng.choice(_instr_choices(d) + [0, 7]),
              'gap_bars': rng.choice([1, 1, 1, 2, 4, 0]), 'ignore_polyphonic_notes': rng.random() < 0.7,
              'pad_end': rng.random() < 0.5, 'filter_drums': rng.random() < 0.7}
     elif op == 'drums':
@@ -191,26 +210,50 @@ def gen_case(rng, op):
         p = {'start_step': a, 'end_step': b}
     elif op == 'pianoroll':
         d = _seq(rng, overlap_ok=True)
-        lo, hi = rng.choice([(21, 108), (21, 108), (0, 127), (40, 90), (60, 60)])
+        if rng.random() < 0.5:
+            lo, hi = rng.choice([(21, 108), (21, 108), (0, 127), (40, 90), (60, 60)])
+        else:                                            # min and max drawn independently
+            lo = rng.choice([0, 1, 21, 30, 59, 60])
+            hi = rng.choice([x for x in [60, 61, 89, 108, 126, 127] if x >= lo])
         ss = rng.choice([0, 0, 0, 1, 4, rng.randint(0, max(0, d['qsteps']))])
         p = {'start_step': min(ss, d['qsteps']), 'min_pitch': lo, 'max_pitch': hi, 'split_repeats': rng.random() < 0.7}
     elif op in ('perf', 'metric'):
         d = _seq(rng, absolute=(op == 'perf'), zero_vel=False, overlap_ok=True)
-        instrs = sorted(set(n[4] for n in d['notes'])) or [0]
         p = {'start_step': rng.choice([0, 0, 0, 1, 5, 16]), 'num_velocity_bins': rng.choice([0, 1, 2, 8, 32, 127]),
-             'instrument': rng.choice([None, None] + instrs), 'default_velocity': rng.choice([100, 64])}
+             'instrument': rng.choice([None, None] + _instr_choices(d) + [7]),
+             'default_velocity': rng.choice([100, 64]),
+             # constructor arguments documented as ignored when a sequence is given
+             'ctor_program': rng.choice([None, None, 7]), 'ctor_is_drum': rng.choice([None, None, True]),
+             # to_sequence arguments used by the oracle's rendering
+             'render_instrument': rng.choice([0, 0, 3]), 'render_program': rng.choice([None, None, 5])}
         if op == 'perf':
             p['max_shift_steps'] = rng.choice([1, 2, 3, 7, 10, 100])
         else:
             p['max_shift_quarters'] = rng.choice([1, 2, 4])
+            p['qpm'] = rng.choice([120, 120, 60, 100])
+        if rng.random() < 0.02:
+            p['num_velocity_bins'] = 128                 # documented ValueError
     elif op == 'noteperf':
         d = _seq(rng, absolute=True, zero_vel=False, overlap_ok=True)
-        instrs = sorted(set(n[4] for n in d['notes'])) or [0]
         p = {'start_step': rng.choice([0, 0, 0, 1, 5]), 'num_velocity_bins': rng.choice([1, 2, 8, 32, 127]),
-             'instrument': rng.choice([None, 0] + instrs), 'max_shift_steps': rng.choice([1000, 1000, 40, 8]),
-             'max_duration_steps': rng.choice([1000, 1000, 8, 3])}
+             'instrument': rng.choice([None, 0] + _instr_choices(d) + [7]),
+             'max_shift_steps': rng.choice([1000, 1000, 40, 8, 3]),
+             'max_duration_steps': rng.choice([1000, 1000, 8, 3, 40]),
+             'render_instrument': rng.choice([0, 0, 3]), 'render_program': rng.choice([None, None, 5])}
+        if rng.random() < 0.02:
+            p['num_velocity_bins'] = 128
     else:
         raise ValueError(op)
+    if rng.random() < 0.03:
+        # wrong kind of quantization (or none at all): every extractor must raise QuantizationStatusError
+        if op in ('perf', 'noteperf'):
+            d['sps'] = 0
+            d['spq'] = rng.choice([0, 4])
+        else:
+            d['spq'] = 0
+            d['sps'] = rng.choice([0, 100])
+        if not d['spq'] and not d['sps'] and rng.random() < 0.5:
+            d['qinfo_empty'] = True
     return {'op': op, 'input': {'seq': d, 'p': p}}
 
 
@@ -226,6 +269,7 @@ def cases(rng, tier, n=None):
     for op in OPS:
         for _ in range(per):
             out.append(gen_case(rng, op))
+    rng.shuffle(out)          # different extractors / configurations interleaved in one process
     return out
 
 
@@ -298,30 +342,46 @@ def _exc(e):
     return ['EXC', type(e).__name__]
 
 
-def _events_obj(op, ns, p):
+def _mel_kw(p):
+    return {k: p[k] for k in ('search_start_step', 'instrument', 'gap_bars', 'ignore_polyphonic_notes', 'pad_end',
+                              'filter_drums')}
+
+
+def _dr_kw(p):
+    return {k: p[k] for k in ('search_start_step', 'gap_bars', 'pad_end', 'ignore_is_drum')}
+
+
+def _pr_kw(p):
+    return {k: p[k] for k in ('start_step', 'min_pitch', 'max_pitch', 'split_repeats')}
+
+
+def _events_obj(op, ns, p, obj=None):
+    """Build the event sequence.  `obj`: an already used Melody / DrumTrack / ChordProgression to re-populate."""
     from note_seq import melodies_lib, drums_lib, chords_lib, pianoroll_lib, performance_lib
     if op == 'melody':
-        m = melodies_lib.Melody()
-        m.from_quantized_sequence(ns, **p)
+        m = obj if obj is not None else melodies_lib.Melody()
+        m.from_quantized_sequence(ns, **_mel_kw(p))
         return m
     if op == 'drums':
-        m = drums_lib.DrumTrack()
-        m.from_quantized_sequence(ns, **p)
+        m = obj if obj is not None else drums_lib.DrumTrack()
+        m.from_quantized_sequence(ns, **_dr_kw(p))
         return m
     if op == 'chords':
-        m = chords_lib.ChordProgression()
+        m = obj if obj is not None else chords_lib.ChordProgression()
         m.from_quantized_sequence(ns, p['start_step'], p['end_step'])
         return m
     if op == 'pianoroll':
-        return pianoroll_lib.PianorollSequence(quantized_sequence=ns, **p)
+        return pianoroll_lib.PianorollSequence(quantized_sequence=ns, **_pr_kw(p))
     if op == 'perf':
         return performance_lib.Performance(
             quantized_sequence=ns, start_step=p['start_step'], num_velocity_bins=p['num_velocity_bins'],
-            max_shift_steps=p['max_shift_steps'], instrument=p['instrument'])
+            max_shift_steps=p['max_shift_steps'], instrument=p['instrument'],
+            program=p.get('ctor_program'), is_drum=p.get('ctor_is_drum'))
     if op == 'metric':
         return performance_lib.MetricPerformance(
             quantized_sequence=ns, start_step=p['start_step'], num_velocity_bins=p['num_velocity_bins'],
-            max_shift_quarters=p['max_shift_quarters'], instrument=p['instrument'])
+            max_shift_quarters=p['max_shift_quarters'], instrument=p['instrument'],
+            program=p.get('ctor_program'), is_drum=p.get('ctor_is_drum'))
     if op == 'noteperf':
         return performance_lib.NotePerformance(
             ns, num_velocity_bins=p['num_velocity_bins'], instrument=p['instrument'], start_step=p['start_step'],
@@ -342,14 +402,7 @@ def _step_notes(seq):
     return sorted(out)
 
 
-def impl(case):
-    op = case['op']
-    d, p = case['input']['seq'], case['input']['p']
-    ns = nsio.to_proto(d)
-    try:
-        m = _events_obj(op, ns, p)
-    except Exception as e:  # noqa
-        return _exc(e)
+def _observe(op, m, p):
     if op == 'melody':
         return ['OK', [int(e) for e in m], m.start_step, m.end_step, m.steps_per_bar, m.steps_per_quarter]
     if op == 'drums':
@@ -363,21 +416,119 @@ def impl(case):
         evs = [[int(e.event_type), int(e.event_value)] for e in m]
         sn = _step_notes(m._to_sequence(seconds_per_step=1.0, velocity=p['default_velocity'], instrument=0,
                                         program=None))
-        return ['OK', evs, _opt(m.program), _opt(m.is_drum), sn, m.max_shift_steps]
+        return ['OK', evs, _opt(m.program), _opt(m.is_drum), sn, m.start_step]
     if op == 'noteperf':
         evs = [[int(t[0].event_value), int(t[1].event_value), int(t[2].event_value), int(t[3].event_value)] for t in m]
         assert all([t[0].event_type, t[1].event_type, t[2].event_type, t[3].event_type] == [3, 1, 4, 5] for t in m)
         m2 = copy.copy(m)
         m2._steps_per_second = 1           # read to_sequence at step level (seconds_per_step = 1.0)
         sn = _step_notes(m2.to_sequence())
-        return ['OK', evs, _opt(m.program), _opt(m.is_drum), sn]
+        return ['OK', evs, _opt(m.program), _opt(m.is_drum), sn, m.start_step]
     raise ValueError(op)
+
+
+_DIRTY = {}
+
+
+def _dirty_obj(op):
+    """A Melody / DrumTrack / ChordProgression that already holds the events of ANOTHER extraction (the melody
+    after a PolyphonicMelodyError before that): from_quantized_sequence must start from scratch."""
+    from note_seq import melodies_lib, drums_lib, chords_lib
+    ns = nsio.to_proto(_d([_n(55, 90, 3, 9), _n(57, 90, 20, 22), _n(40, 80, 5, 6, drum=1)], spq=2, ts=(3, 4),
+                          texts=[[K, 1, 'Dm', 1], [5 * K, 5, 'E7', 1]]))
+    if op == 'melody':
+        m = melodies_lib.Melody()
+        try:
+            m.from_quantized_sequence(nsio.to_proto(_d([_n(60, 90, 1, 3), _n(64, 90, 1, 2)])))
+        except melodies_lib.PolyphonicMelodyError:
+            pass
+        m.from_quantized_sequence(ns, gap_bars=4, pad_end=True)
+    elif op == 'drums':
+        m = drums_lib.DrumTrack()
+        m.from_quantized_sequence(ns, gap_bars=4, pad_end=True)
+    else:
+        m = chords_lib.ChordProgression()
+        m.from_quantized_sequence(ns, 0, 9)
+    assert len(m) > 0
+    return m
+
+
+def _mutate(op, m):
+    """Scribble on a returned object (must not be visible in later extractions)."""
+    try:
+        if op in ('melody', 'drums', 'chords'):
+            m.set_length(len(m) + 3)
+            if len(m):
+                m._events[0] = m._events[-1]
+        elif op == 'pianoroll':
+            m.set_length(len(m) + 2)
+            m._events.append((0,))
+        elif op in ('perf', 'metric'):
+            m.set_length(m.num_steps + 5)
+            m.truncate(max(0, len(m) - 2))
+        else:
+            m._events.append(m._events[0] if m._events else ())
+            del m._events[:1]
+    except Exception:  # noqa
+        pass
+
+
+def impl(case):
+    op = case['op']
+    d, p = case['input']['seq'], case['input']['p']
+    ns = nsio.to_proto(d)
+    before = ns.SerializeToString(deterministic=True)
+    m = None
+    try:
+        m = _events_obj(op, ns, p)
+        out = _observe(op, m, p)
+    except Exception as e:  # noqa
+        out = _exc(e)
+    # (B) state across calls: the argument is not modified; an object that was already populated gives the same
+    # result; scribbling on the returned object does not leak into a later extraction
+    if ns.SerializeToString(deterministic=True) != before:
+        return ['STATE', 'argument-modified']
+    try:
+        if op in ('melody', 'drums', 'chords'):
+            m2 = _events_obj(op, ns, p, obj=_dirty_obj(op))
+        else:
+            if m is not None:
+                _mutate(op, m)
+            m2 = _events_obj(op, ns, p)
+        out2 = _observe(op, m2, p)
+    except Exception as e:  # noqa
+        out2 = _exc(e)
+        m2 = None
+    if out2 != out:
+        return ['STATE', 'second-extraction-differs', out, out2]
+    if m is not None and m2 is not None and op in ('melody', 'drums', 'chords'):
+        _mutate(op, m2)
+        if _observe(op, m, p) != out:
+            return ['STATE', 'objects-share-state']
+    if ns.SerializeToString(deterministic=True) != before:
+        return ['STATE', 'argument-modified']
+    return out
+
+
+def _unmodelled_rejection(case):
+    """Rejections checked by the oracle only (the Run entry point does not model them)."""
+    op = case['op']
+    d, p = case['input']['seq'], case['input']['p']
+    if op in ('perf', 'metric', 'noteperf'):
+        wrongq = (op == 'metric' and not d['spq']) or (op != 'metric' and not d['sps'])
+        toomany = p['num_velocity_bins'] > 127
+        if op == 'noteperf':            # NotePerformance validates num_velocity_bins first
+            return 'ValueError' if toomany else ('QuantizationStatusError' if wrongq else None)
+        return 'QuantizationStatusError' if wrongq else ('ValueError' if toomany else None)
+    return None
 
 
 # ---------------------------------------------------------------- model
 def model_input(case):
     op = case['op']
     d, p = case['input']['seq'], case['input']['p']
+    if _unmodelled_rejection(case):
+        return None
     w = nsio.to_wire(nsio.to_proto(d))
     if op == 'melody':
         return [1, w, p['search_start_step'], p['instrument'], p['gap_bars'], p['ignore_polyphonic_notes'],
@@ -411,11 +562,9 @@ def model_output(case, m):
     if op == 'pianoroll':
         return ['OK'] + r
     if op in ('perf', 'metric'):
-        d, p = case['input']['seq'], case['input']['p']
-        ms = p['max_shift_steps'] if op == 'perf' else d['spq'] * p['max_shift_quarters']
-        return ['OK', r[0], r[1], r[2], sorted(r[3]), ms]
+        return ['OK', r[0], r[1], r[2], sorted(r[3]), case['input']['p']['start_step']]
     if op == 'noteperf':
-        return ['OK', r[0], r[1], r[2], sorted(r[3])]
+        return ['OK', r[0], r[1], r[2], sorted(r[3]), case['input']['p']['start_step']]
 
 
 # ---------------------------------------------------------------- oracle: the property on the implementation
@@ -539,7 +688,7 @@ def _oracle_chords(d, p, io):
             return {'kind': 'chords-coincident-not-reported', 'got': io[:2]}
         return None
     if b <= a:
-        return None if io[0] == 'EXC' else {'kind': 'chords-empty-range-accepted'}
+        return None if io == ['EXC', 'BadChordError'] else {'kind': 'chords-empty-range-accepted', 'got': io[:2]}
     if io[0] != 'OK':
         return {'kind': 'chords-unexpected-exception', 'got': io}
     evs = io[1]
@@ -591,36 +740,39 @@ def _expected_prog_drum(d, p):
     return 0, False
 
 
-def _oracle_perf(op, d, p, io):
-    from note_seq import performance_lib as pl, sequences_lib
-    if io[0] != 'OK':
-        return {'kind': op + '-unexpected-exception', 'got': io}
-    ss, nb = p['start_step'], p['num_velocity_bins']
-    sel = [n for n in d['notes'] if n[7] >= ss and (p['instrument'] is None or n[4] == p['instrument'])]
-    ms = io[5]
-    evs = io[1]
-    shifts = [v for t, v in evs if t == 3]
-    if any(not (1 <= v <= ms) for v in shifts):
-        return {'kind': op + '-shift-out-of-range', 'max_shift_steps': ms, 'shifts': shifts[:20]}
-    elapsed = (max(n[8] for n in sel) - ss) if sel else 0
-    if sum(shifts) != elapsed:
-        return {'kind': op + '-shifts-do-not-sum-to-elapsed-steps', 'sum': sum(shifts), 'elapsed': elapsed}
-    if not _wf(d) or _same_pitch_overlap(sel) or not _monotone_times(sel):
-        return None
-    # render with the public API and re-quantize
-    ns = nsio.to_proto(d)
-    m = _events_obj(op, ns, p)
-    if op == 'perf':
-        back = sequences_lib.quantize_note_sequence_absolute(m.to_sequence(velocity=p['default_velocity']), d['sps'])
-    else:
-        back = sequences_lib.quantize_note_sequence(m.to_sequence(velocity=p['default_velocity'], qpm=120.0), d['spq'])
-    prog, drum = _expected_prog_drum(d, p)
+def _vel_rep(v, nb, default):
+    """Velocity a note comes back with, from the DOCUMENTED binning (bins of equal size ceil(127/nb) starting at
+    velocity 1), computed here and not taken from performance_lib."""
+    if not nb:
+        return default
+    size = -(-127 // nb)
+    return 1 + ((v - 1) // size) * size
 
-    def v(x):
-        return pl.velocity_bin_to_velocity(pl.velocity_to_bin(x, nb), nb) if nb else p['default_velocity']
-    want = sorted([n[0], n[7], n[8], v(n[1]), prog, int(drum)] for n in sel)
-    got = sorted([n.pitch, n.quantized_start_step, n.quantized_end_step, n.velocity, n.program, int(n.is_drum)]
-                 for n in back.notes)
+
+def _render(op, d, p, m):
+    from note_seq import sequences_lib
+    kw = {'instrument': p.get('render_instrument', 0), 'program': p.get('render_program')}
+    if op == 'perf':
+        return sequences_lib.quantize_note_sequence_absolute(
+            m.to_sequence(velocity=p['default_velocity'], **kw), d['sps'])
+    if op == 'metric':
+        return sequences_lib.quantize_note_sequence(
+            m.to_sequence(velocity=p['default_velocity'], qpm=float(p.get('qpm', 120)), **kw), d['spq'])
+    return sequences_lib.quantize_note_sequence_absolute(m.to_sequence(**kw), d['sps'])
+
+
+def _check_render(op, d, p, sel, default_velocity):
+    """The property: rendered back and re-quantized, the same multiset of notes."""
+    nb = p['num_velocity_bins']
+    m = _events_obj(op, nsio.to_proto(d), p)
+    back = _render(op, d, p, m)
+    prog, drum = _expected_prog_drum(d, p)
+    if p.get('render_program') is not None:
+        prog = p['render_program']                      # to_sequence(program=...) overrides
+    ri = p.get('render_instrument', 0)
+    want = sorted([n[0], n[7], n[8], _vel_rep(n[1], nb, default_velocity), prog, int(drum), ri] for n in sel)
+    got = sorted([n.pitch, n.quantized_start_step, n.quantized_end_step, n.velocity, n.program, int(n.is_drum),
+                  n.instrument] for n in back.notes)
     if got != want:
         miss = [x for x in want if x not in got][:3]
         extra = [x for x in got if x not in want][:3]
@@ -628,8 +780,41 @@ def _oracle_perf(op, d, p, io):
     return None
 
 
+def _oracle_perf(op, d, p, io):
+    rej = _unmodelled_rejection({'op': op, 'input': {'seq': d, 'p': p}})
+    if rej:
+        return None if io == ['EXC', rej] else {'kind': op + '-documented-error-missing', 'want': rej, 'got': io[:2]}
+    if io[0] != 'OK':
+        return {'kind': op + '-unexpected-exception', 'got': io}
+    ss, nb = p['start_step'], p['num_velocity_bins']
+    sel = [n for n in d['notes'] if n[7] >= ss and (p['instrument'] is None or n[4] == p['instrument'])]
+    ms = p['max_shift_steps'] if op == 'perf' else d['spq'] * p['max_shift_quarters']     # as REQUESTED
+    evs = io[1]
+    if io[5] != ss:
+        return {'kind': op + '-start-step', 'got': io[5], 'want': ss}
+    shifts = [v for t, v in evs if t == 3]
+    if any(not (1 <= v <= ms) for v in shifts):
+        return {'kind': op + '-shift-out-of-range', 'max_shift_steps': ms, 'shifts': shifts[:20]}
+    elapsed = (max(n[8] for n in sel) - ss) if sel else 0
+    if sum(shifts) != elapsed:
+        return {'kind': op + '-shifts-do-not-sum-to-elapsed-steps', 'sum': sum(shifts), 'elapsed': elapsed}
+    if any(t == 4 and not (1 <= v <= nb) for t, v in evs):
+        return {'kind': op + '-velocity-bin-out-of-range', 'num_velocity_bins': nb}
+    # program / is_drum are read from the sequence; the constructor arguments are documented as ignored
+    prog, drum = _expected_prog_drum(d, p)
+    inst = [n for n in d['notes'] if p['instrument'] is None or n[4] == p['instrument']]
+    homogeneous = all(n[6] for n in inst) or all(not n[6] for n in inst)
+    if homogeneous and io[3] != [int(drum)]:
+        return {'kind': op + '-is-drum', 'got': io[3], 'want': int(drum)}
+    if not _wf(d) or _same_pitch_overlap(sel) or not _monotone_times(sel):
+        return None
+    return _check_render(op, d, p, sel, p['default_velocity'])
+
+
 def _oracle_noteperf(d, p, io):
-    from note_seq import performance_lib as pl, sequences_lib
+    rej = _unmodelled_rejection({'op': 'noteperf', 'input': {'seq': d, 'p': p}})
+    if rej:
+        return None if io == ['EXC', rej] else {'kind': 'noteperf-documented-error-missing', 'want': rej, 'got': io[:2]}
     ss, nb = p['start_step'], p['num_velocity_bins']
     sel = [n for n in d['notes'] if n[7] >= ss and (p['instrument'] is None or n[4] == p['instrument'])]
     if not _wf(d) or not _monotone_times(sel):
@@ -647,19 +832,12 @@ def _oracle_noteperf(d, p, io):
         return None if io == ['EXC', want_exc] else {'kind': 'noteperf-limit-not-reported', 'want': want_exc, 'got': io[:2]}
     if io[0] != 'OK':
         return {'kind': 'noteperf-unexpected-exception', 'got': io}
-    ns = nsio.to_proto(d)
-    m = _events_obj('noteperf', ns, p)
-    back = sequences_lib.quantize_note_sequence_absolute(m.to_sequence(), d['sps'])
-    prog, drum = _expected_prog_drum(d, p)
-    want = sorted([n[0], n[7], n[8], pl.velocity_bin_to_velocity(pl.velocity_to_bin(n[1], nb), nb), prog, int(drum)]
-                  for n in sel)
-    got = sorted([n.pitch, n.quantized_start_step, n.quantized_end_step, n.velocity, n.program, int(n.is_drum)]
-                 for n in back.notes)
-    if got != want:
-        miss = [x for x in want if x not in got][:3]
-        extra = [x for x in got if x not in want][:3]
-        return {'kind': 'noteperf-notes-not-recovered', 'missing': miss, 'extra': extra}
-    return None
+    if io[5] != ss:
+        return {'kind': 'noteperf-start-step', 'got': io[5], 'want': ss}
+    for sh, q, b, du in io[1]:
+        if not (0 <= sh <= p['max_shift_steps'] and 1 <= du <= p['max_duration_steps'] and 1 <= b <= nb):
+            return {'kind': 'noteperf-tuple-out-of-range', 'tuple': [sh, q, b, du]}
+    return _check_render('noteperf', d, p, sel, None)
 
 
 def oracle(case, io):
@@ -667,6 +845,8 @@ def oracle(case, io):
     d, p = case['input']['seq'], case['input']['p']
     if io and io[0] == 'HARNESS-EXC':
         return {'kind': 'harness-exception', 'detail': io[1:]}
+    if io and io[0] == 'STATE':
+        return {'kind': 'state-' + io[1], 'op': op, 'detail': str(io[2:])[:300]}
     if op in ('melody', 'drums', 'chords') and d['spq'] and not d['tsigs']:
         return None        # not a quantizer output (quantize_note_sequence always leaves a time signature)
     if op == 'melody':
@@ -690,7 +870,8 @@ def nontrivial(case, io):
     if io[0] == 'OK':
         return len(io[1]) > 0
     return io[0] == 'EXC' and io[1] in ('PolyphonicMelodyError', 'CoincidentChordsError', 'NonIntegerStepsPerBarError',
-                                        'TooManyTimeShiftStepsError', 'TooManyDurationStepsError')
+                                        'TooManyTimeShiftStepsError', 'TooManyDurationStepsError',
+                                        'QuantizationStatusError', 'BadChordError', 'ValueError')
 
 
 def shrink(case):
@@ -699,6 +880,8 @@ def shrink(case):
         yield {'op': case['op'], 'input': {'seq': c, 'p': p}}
     for k, v in sorted(p.items()):
         for small in ([0, 1] if isinstance(v, int) and not isinstance(v, bool) else [False] if isinstance(v, bool) else []):
+            if k in ('qpm', 'render_instrument', 'default_velocity'):
+                continue
             if v != small and not (k in ('max_shift_steps', 'max_shift_quarters', 'max_duration_steps', 'end_step',
                                          'num_velocity_bins') and small == 0):
                 q = dict(p); q[k] = small
